@@ -26,9 +26,17 @@ def parse(filename):
 
 def patch(nodes, patch_dict):
     for idx, node in enumerate(nodes):
+        if isinstance(node, model.Include):
+            """ rules name definitions: an included file named like one is not it """
+            continue
         patches = patch_dict.get(node.name)
         if patches:
             nodes[idx] = _apply(node, patches)
+            if isinstance(nodes[idx], (model.Struct, model.Union)):
+                try:
+                    nodes[idx]._check_members_duplication(nodes[idx].members)
+                except model.ModelError as e:
+                    raise PatchError("%s (after patching %s)" % (e, node.name))
 
 
 def _apply(node, patches):
